@@ -139,6 +139,8 @@ class Report:
                   violations=sum(len(vs) for _, vs in new))
         if self.harness_notes:
             ev["coverage"]["harness_notes"] = self.harness_notes
+            for n_ in self.harness_notes:
+                print(f"HARNESS-NOTE {self.pid}: {str(n_)[:300]}")
         os.makedirs(os.path.join(VERIF, "evidence"), exist_ok=True)
         with open(os.path.join(VERIF, "evidence", f"{self.pid}.json"), "w") as f:
             json.dump(ev, f, indent=1, default=str)
